@@ -75,6 +75,10 @@ CHECKS = {
             "Fault enumeration on genuine ciphertext: for each genuine transmission (packet and stream items chosen so that a wrongly accepted variant is visible: PKCS#7-looking tails, block-aligned plaintexts, a second installed key) every single bit is flipped, every truncation, 16-byte-boundary splices, relabelling (other / extended / none / doubled header, and with the inbound label check delegated), foreign key, foreign associated data, cleartext, and a key removed while rotation calls run concurrently. The observed effect (digest diff, delegate calls with arguments, every emitted packet for 1.5 s, decoded stream reply) must be empty or identical to the effect of the genuine plaintext in the same state. Two named variants are registered known findings (unauthenticated version byte on checksum-less packets); any other accepted modification is a VIOLATION.",
             "Enumeration is complete over single-bit edits and truncations of the chosen items in thorough (strided over the ciphertext body in quick). Trusts stdlib AES-GCM and the oracle-side framing.",
             "effect-equivalence oracle over enumerated ciphertext modifications", "DESIGN.md §3 C14"),
+    "C19": ("E2-rig (all peers are scripted fake peers)", "exploration",
+            "Runtime monitor in virtual time where the harness decides when every ack, nack, relayed ack and TCP-fallback reply arrives: prober oracle (answered <=> an ack with the probe's own number before the awareness-scaled deadline <=> not suspected), exact health-score accounting read at the instant each probe ends (-1 / +missed nacks / +1, clamped, unchanged when the ping could not even be sent), relay oracle on 60 indirect-ping requests per case (one forwarded ping with a non-pending number; one relayed ack under the requester's number iff the target answered within the probe timeout; one nack iff requested and no timely ack), handler cleanup after all deadlines.",
+            "Scripted arrivals stay >= 5 ms from every deadline. Trusts synctest timing, the wire codec, the accessor for pending-probe records.",
+            "scripted-arrival oracle on probe outcome, relay traffic and health accounting (virtual time)", "DESIGN.md §3 C19"),
 }
 
 NOT_YET = "check not built yet in this round (design in DESIGN.md §3); not claimed until its monitor runs clean on the unchanged tree"
@@ -112,7 +116,7 @@ def main():
         "engines": [
             {"name": "E3-hostile-input", "path": "harness/hostile.go", "serves_properties": ["C13", "C14"], "kind_free_text": "victim node + genuine corpus from the oracle-side codec + deterministic mutators; each input journalled before injection, batches in child processes"},
             {"name": "E1-simnet", "path": "harness/simnet.go", "serves_properties": ["C02", "C03", "C04", "C05", "C07", "C08", "C12", "C15", "C17"], "kind_free_text": "real Memberlist instances on an in-memory transport inside a testing/synctest bubble (virtual time), with wire tap, fault scripts and fake peers"},
-            {"name": "E2-model-lockstep", "path": "harness/", "serves_properties": ["C01", "C02", "C06", "C08", "C10", "C11", "C16", "C17", "C18"], "kind_free_text": "PRNG operation sequences against one object with an executable reference model evaluated in lock-step"},
+            {"name": "E2-model-lockstep", "path": "harness/", "serves_properties": ["C01", "C02", "C06", "C08", "C10", "C11", "C16", "C17", "C18", "C19"], "kind_free_text": "PRNG operation sequences against one object with an executable reference model evaluated in lock-step"},
         ],
         "checks": checks,
         "not_applicable": [{"property_id": p, "reason": NOT_YET} for p in ALL if p not in CHECKS],
